@@ -15,7 +15,7 @@ Some(hash) with hash = to_string(hash_password(payload password, salt from SaltS
 reaches no database call or response), C17.P-login (the three Identity::login sites: after verify_password(..).is_ok()
 against the hash of the user found by the payload name, never for password None; after a successful replace_one filtered
 by the session identity; after inserting the password-less user), C17.P-delete (delete_many on the problems dominates
-delete_one on the user, both filtered by identity; rename re-owns the problems from the old identity to the new name),
+delete_one on the user, both filtered by identity; rename re-owns the problems from the old identity to the new name, and only after the replace_one on the user document - the unique index arbitrates concurrent renames),
 C17.T-tasks (running tasks are listed only for equal adf_name and username), C17.W-shared (AppState has exactly the two
 known fields, no statics; the unique username index is created before the server starts), C17.P-live (every handler
 acting under an identity is dominated by a successful lookup of that name in the users collection - open finding F12)."""
